@@ -100,7 +100,7 @@ CHECKS = {
     'C08': dict(
         props=['C08'], opts='props=0 q=4',
         quick=[mc(2, [2, 4, 5, 6], DEL, DEL + GC + ['add_face_v', 'add_edge'], Modes='ModesTwo', BUSets='BUTwo'),
-               mc(1, MAINSEEDS + EXTRA, [], SWAP + DEL, Modes='ModesDefault', BUSets='BUOn'),
+               mc(1, MAINSEEDS + EXTRA, [], SWAP + DEL, Modes='ModesDefault', BUSets='BUTwo'),   # renumbering with and without incidences (scanning variants)
                # "faces ... accepted with topology check are closed loops": every halfedge list up to length 3
                mc(1, [6], [], ['add_face'], Modes='ModesDefault', BUSets='BUOn', MaxList=3)],
         thorough=[mc(3, [2, 5, 6, 11], DEL, DEL + GC + ['add_face_v', 'add_edge'], Modes='ModesTwo', BUSets='BUTwo'),
